@@ -463,42 +463,47 @@ JSON::JSON(const JSON& rhs) : value(nullptr) {
 }
 
 JSON& JSON::operator=(const JSON& rhs) {
+  // rhs may be *this or a value nested inside *this (a = a; a = a.at(0)).
+  // Build the complete copy before the old value is released; releasing it
+  // first would destroy rhs while it's still being read.
+  decltype(this->value) new_value;
   switch (rhs.value.index()) {
     case 0:
-      this->value = nullptr;
+      new_value = nullptr;
       break;
     case 1:
-      this->value = ::get<1>(rhs.value);
+      new_value = ::get<1>(rhs.value);
       break;
     case 2:
-      this->value = ::get<2>(rhs.value);
+      new_value = ::get<2>(rhs.value);
       break;
     case 3:
-      this->value = ::get<3>(rhs.value);
+      new_value = ::get<3>(rhs.value);
       break;
     case 4:
-      this->value = ::get<4>(rhs.value);
+      new_value = ::get<4>(rhs.value);
       break;
     case 5: {
-      this->value = vector<unique_ptr<JSON>>();
-      auto& v = ::get<5>(this->value);
+      vector<unique_ptr<JSON>> v;
       v.reserve(rhs.size());
       for (const auto& item : (::get<5>(rhs.value))) {
         v.emplace_back(new JSON(*item));
       }
+      new_value = std::move(v);
       break;
     }
     case 6: {
-      this->value = unordered_map<string, unique_ptr<JSON>>();
-      auto& v = ::get<6>(this->value);
+      unordered_map<string, unique_ptr<JSON>> v;
       for (const auto& it : (::get<6>(rhs.value))) {
         v.emplace(it.first, new JSON(*it.second));
       }
+      new_value = std::move(v);
       break;
     }
     default:
       throw logic_error("invalid JSON value type");
   }
+  this->value = std::move(new_value);
   return *this;
 }
 
